@@ -203,6 +203,25 @@ def gen_malformed(rng, np):
     return fmt_line(np, nv, naux, ranks, [])
 
 
+def gen_lonely(rng, np):
+    """copies of a vertex that NO cell references disagree on its part (the only inconsistency the harness accepts: such
+    a vertex never becomes a ghost, nobody waits for its owner): rank s says part q, rank q says part p.  The payload
+    loop of ref_migrate_shufflin_node must set part = rank on the copy q already stores."""
+    nv, cells = rng.choice([mesh_box, mesh_square, mesh_soup])(rng)
+    naux = rng.choice([0, 1])
+    old = gen_part(rng, nv, np)
+    new = gen_part(rng, nv, np)
+    ranks = [(list(n), list(c)) for n, c in world_of(rng, np, nv, cells, naux, old, new)]
+    g = nv            # a fresh isolated vertex
+    nv += 1
+    q = rng.randrange(np)
+    s = rng.choice([r for r in range(np) if r != q])
+    p = rng.choice([r for r in range(np) if r != q])
+    ranks[s][0].insert(rng.randint(0, len(ranks[s][0])), (g, q, payload_of(g, naux, salt=5.0)))
+    ranks[q][0].insert(rng.randint(0, len(ranks[q][0])), (g, p, payload_of(g, naux, salt=9.0)))
+    return fmt_line(np, nv, naux, ranks, [])
+
+
 def gen_shufflin(rng, tier, np):
     n = (10 if np > 1 else 3) if tier == 'quick' else (40 if np > 1 else 6)
     ops = []
@@ -215,6 +234,8 @@ def gen_shufflin(rng, tier, np):
         ops.append(gen_consistent(rng, np, tier))
         if rng.random() < 0.35:
             ops.append(gen_malformed(rng, np))
+        if np >= 2 and rng.random() < 0.3:
+            ops.append(gen_lonely(rng, np))
         if rng.random() < 0.05:
             ops.append(rng.choice(['shufflin %d 3 0 1' % np, 'shufflin %d 2 0 1 %s' % (np, '| C ' * (np + 1)),
                                    'shufflin %d 1 0 1 %s' % (np, '| 0,%d,zz C ' % np * np), 'frobnicate %d | x' % np]))
